@@ -193,13 +193,14 @@ class MetricLineReceiver(MetricReceiver, LineOnlyReceiver):
   delimiter = b'\n'
 
   def lineReceived(self, line):
-    if sys.version_info >= (3, 0):
-      line = line.decode('utf-8')
-
     try:
+      if sys.version_info >= (3, 0):
+        line = line.decode('utf-8')
       metric, value, timestamp = line.strip().split()
       datapoint = (float(timestamp), float(value))
     except ValueError:
+      if not isinstance(line, str):  # undecodable bytes
+        line = line.decode('utf-8', 'replace')
       if len(line) > 400:
         line = line[:400] + '...'
       log.listener('invalid line received from client %s, ignoring [%s]' %
@@ -222,15 +223,23 @@ class MetricDatagramReceiver(MetricReceiver, DatagramProtocol):
   def datagramReceived(self, data, addr):
     (host, _) = addr
     if sys.version_info >= (3, 0):
-      data = data.decode('utf-8')
+      try:
+        data = data.decode('utf-8')
+      except UnicodeDecodeError:
+        # decode line by line below so that only the offending lines are dropped
+        pass
 
     for line in data.splitlines():
       try:
+        if isinstance(line, bytes) and sys.version_info >= (3, 0):
+          line = line.decode('utf-8')
         metric, value, timestamp = line.strip().split()
         datapoint = (float(timestamp), float(value))
 
         self.metricReceived(metric, datapoint)
       except ValueError:
+        if not isinstance(line, str):  # undecodable bytes
+          line = line.decode('utf-8', 'replace')
         if len(line) > 400:
           line = line[:400] + '...'
         log.listener('invalid line received from %s, ignoring [%s]' %
